@@ -671,6 +671,19 @@ class JinjaAnalyzer:
                     )
                 str_buff = ""
                 str_parts = []
+        if str_buff:
+            # Jinja accepts a comment opener as the very last thing in a file
+            # (e.g. "SELECT 1 {#") and silently renders nothing for it. The
+            # loop above only emits a slice when it sees the end of a tag, so
+            # cover the remainder here to keep the raw slices consistent with
+            # the source (otherwise TemplatedFile fails its length assertion).
+            self.raw_sliced.append(
+                RawFileSlice(str_buff, "comment", self.idx_raw, block_idx)
+            )
+            self.raw_slice_info[self.raw_sliced[-1]] = self.make_raw_slice_info(
+                None, None
+            )
+            self.idx_raw += len(str_buff)
         return self._get_jinja_tracer(
             self.raw_str,
             self.raw_sliced,
